@@ -24,8 +24,8 @@ def run(ctx):
         "backend I/O faults (topic.Empty / channel.Empty / PersistMetadata errors, body read errors) are outside",
         "equivalence theorems: both servers read the same options, auth disabled, 0 <= max-req-timeout < 2^63-1 ns, "
         "max-msg-size >= 0, body shorter than 2^31 bytes, request complete (declared length = body length, or chunked)",
-        "mpub_binary_equiv_tcp: a chunked body is within max-body-size (otherwise known finding F10: "
-        "mpub_body_bounded is false, mpub_body_bounded_partial holds for declared lengths)",
+        "mpub_binary_equiv_tcp: a chunked body is within max-body-size (beyond it HTTP reads only the first "
+        "max-body-size bytes: mpub_body_bounded, F10 repaired by fixes/F10_mpub_body_limit.patch)",
         "pprof/debug routes, PUT /config/nsqlookupd_tcp_addresses and the content of /stats, /info, /config "
         "answers are not modelled (status `external` / message `*`)",
     ]
